@@ -95,6 +95,16 @@ SEEDS = {
  "s8-C12h": ("C12", ["C12", "C11"], "a schema with $ref plus sibling sub-schema keywords (properties, allOf, additionalProperties): nested schemas dropped from AllDefinitions / SchemasWithAllOf"),
  "s8-C13h": ("C13", ["C13"], "an inline status-code response with two or more headers carrying patterns/enums: hoisted key prefix re-assigned inside the loop"),
  "s8-C18h": ("C18", ["C18"], "primary path item with an id-less operation under an earlier method and an id under a later method, the same id in a mixin ('break' for 'continue' in getOpIDs)"),
+ "s9-C02i": ("C02", ["C02", "C03"], "a colliding $ref-free import with >= 2 referrers, the first of which is the schema of a response under a status code net/http has no text for (420): the pointer created by stripOAIGen cannot be named"),
+ "s9-C05i": ("C05", ["C05", "C01"], "Expand + a recursive definition in an auxiliary document OUTSIDE the root's directory subtree (file:/// circular ref) holding a relative file ref with a fragment to a third document: fragment dropped by the URL branch of RebaseRef"),
+ "s9-C10i": ("C10", ["C10"], "AllRefs() queried BEFORE Flatten + a flattened document that holds no $ref at all (Expand on an acyclic bundle, or only parameter/response refs): memo invalidated only by addRef"),
+ "s9-C11i": ("C11", ["C11", "C13"], "an operation without any 'responses' key whose parameters hold $refs / patterns"),
+ "s9-C14i": ("C14", ["C14", "C15"], "OperationFor(method, path) where the method exists only on another path: reports found with a nil operation"),
+ "s9-C15i": ("C15", ["C15"], "a bad parameter $ref pointing INSIDE an existing shared parameter (#/parameters/ids/items, .../schema): resolved to the enclosing parameter"),
+ "s9-C16i": ("C16", ["C16"], "path-level parameters with spare slice capacity (3, 5..8 entries) + operation-level parameters + two operations of that path queried concurrently: append writes into the document's backing array"),
+ "s9-C17i": ("C17", ["C17"], "primary with a paths object holding no path item but an x- extension: replaced wholesale by initPrimary"),
+ "s9-C19i": ("C19", ["C19"], "a path item carrying a $ref next to its own operations, whose responses lack a description"),
+ "s9-C20i": ("C20", ["C20"], "a discriminator on an otherwise simple schema (object with only a discriminator, map with a discriminator), also behind $ref and as items"),
 }
 only = set(sys.argv[1:])
 res_path = os.path.join(HERE, "seeded", "results.json")
